@@ -15,6 +15,7 @@ mod apis5;
 mod apis6;
 mod apis7;
 mod apis8;
+mod apis9;
 
 fn main() {
     std::panic::set_hook(Box::new(|_| {}));
